@@ -65,7 +65,7 @@ Proof. unfold apply_safe. destruct (safe_from 0 safe (outs e)). reflexivity. Qed
 Lemma core_write_image e : wok e = true -> core (write_image e) = core e.
 Proof. intros W. unfold write_image. destruct (negb (started e)); [reflexivity|]. rewrite W. reflexivity. Qed.
 Lemma core_update_clocks e dt : core (update_clocks e dt) = core e.
-Proof. unfold update_clocks. destruct (bpaused e); reflexivity. Qed.
+Proof. unfold update_clocks, advance_clocks. cbv zeta. destruct (bpaused e || negb (sys_eqb (sys e) Running)); reflexivity. Qed.
 
 (* ---------- registry updates ---------- *)
 Lemma restart_in_filter rg n : n <> Restart -> restart_in rg ->
@@ -265,7 +265,7 @@ Lemma stop_finish_ok safe e m : Inv e ->
   exe (fst (stop_finish safe e m)) = match restart_pending e with Some r => [r] | None => [] end /\
   que (fst (stop_finish safe e m)) = [] /\ restart_pending (fst (stop_finish safe e m)) = None.
 Proof.
-  intros I. unfold stop_finish.
+  intros I. unfold stop_finish, stop_core.
   destruct (stop_pre_facts safe e) as [Q0 [Q1 [Q2 [Q3 [Q4 [Q5 [Q6 [Q7 Q8]]]]]]]].
   remember (stop_pre safe e) as e4 eqn:E4. clear E4.
   assert (W4 : wok e4 = true) by (rewrite Q6; apply (inv_wok e I)).
@@ -273,8 +273,7 @@ Proof.
   assert (P5 : restart_pending (write_image e4) = restart_pending e4).
   { unfold write_image. destruct (negb (started e4)); [reflexivity|]. rewrite W4. reflexivity. }
   remember (write_image e4) as e5 eqn:E5. clear E5.
-  unfold stop_post.
-  set (e6 := upd_flags e5 false (paused e5) (holding e5) (stopping e5)).
+  set (e6 := stop_flags e5).
   pose proof (core_reset_manager e6 m) as CR.
   split; [|split; [|split; [|split]]].
   - apply Inv_of_stopped.
@@ -292,6 +291,12 @@ Proof.
   - reflexivity.
   - reflexivity.
 Qed.
+
+Lemma restart_stop_facts e :
+  started (restart_stop e) = false /\ paused (restart_stop e) = false /\ holding (restart_stop e) = false /\
+  sys (restart_stop e) = Stopped /\ trk (restart_stop e) = false /\ run_id (restart_stop e) = None /\
+  wok (restart_stop e) = wok e /\ reg (restart_stop e) = reg e /\ restart_pending (restart_stop e) = restart_pending e.
+Proof. repeat split. Qed.
 
 Lemma restart_mid_ok e m : Inv e ->
   Inv (fst (restart_mid e m)) /\ reg (fst (restart_mid e m)) = reg e /\
@@ -315,4 +320,30 @@ Proof.
   - reflexivity.
   - split; [split; discriminate|]. cbn. intros r K. inversion K. lia.
   - exact (inv_wok e I).
+Qed.
+
+(* the first steps of Pause / Hold / Stop / Restart *)
+Lemma pause_begin_facts safe e :
+  started (pause_begin safe e) = started e /\ paused (pause_begin safe e) = true /\ holding (pause_begin safe e) = holding e /\
+  sys (pause_begin safe e) = Paused /\ reg (pause_begin safe e) = reg e /\ trk (pause_begin safe e) = trk e /\
+  run_id (pause_begin safe e) = run_id e /\ next_run (pause_begin safe e) = next_run e /\ wok (pause_begin safe e) = wok e /\
+  exe (pause_begin safe e) = exe e /\ que (pause_begin safe e) = que e /\ restart_pending (pause_begin safe e) = restart_pending e.
+Proof.
+  unfold pause_begin, apply_safe. destruct (safe_from 0 safe _) as [cap o]. repeat split.
+Qed.
+
+Lemma Inv_pause_begin safe e : Inv e -> started e = true -> Inv (pause_begin safe e).
+Proof.
+  intros [A B C D F W] S.
+  destruct (pause_begin_facts safe e) as [Q1 [Q2 [Q3 [Q4 [Q5 [Q6 [Q7 [Q8 [Q9 _]]]]]]]]].
+  split; rewrite ?Q1, ?Q2, ?Q3, ?Q4, ?Q5, ?Q6, ?Q7, ?Q8, ?Q9; try assumption.
+  - intros S'. congruence.
+  - intros _. left. unfold fsys. now rewrite Q2.
+Qed.
+
+Lemma Inv_hold_begin e : Inv e -> started e = true -> Inv (hold_begin e).
+Proof.
+  intros [A B C D F W] S. unfold hold_begin. destruct (paused e) eqn:P; split; cbn; try assumption; try (intros S'; congruence).
+  - intros _. destruct (B S) as [K|K]; [left|right; exact K]. unfold fsys in *. cbn. now rewrite P in *.
+  - intros _. left. unfold fsys. cbn. rewrite ?P. reflexivity.
 Qed.
